@@ -82,6 +82,9 @@ def run_case(rs, ctx):
                 # very large integer rewards in an int64 array: consecutive integers above 2^53 are distinct observations
                 op["r"] = [2 ** 53 + int(v) % 7 for v in op["r"]]
                 op["r_dtype"] = "int64"
+            if rs.integers(4) == 0:
+                op["rev_view"] = True  # decisions and rewards arrive as reversed (negative-stride) views of the caller's arrays
+                ctx.count("reversed_view_batches")
             opB = dict(op, r=conv(binarizers.ALL[cur], op["d"], op["r"]))
         elif k in ("add_arm", "add_arm_b"):
             o = gen.gen_ops(rs, cfgA, sh, 1, ["add_arm"])
